@@ -339,6 +339,7 @@ def rule_e(res: Results, idx: Index) -> None:
 
 
 def run(res: Results, idx: Index, tier: str) -> None:
+    rule_f(res, idx)
     res.rule("R-C03e", "slices and offset+index accesses into a node's result tuple / a body graph's interface list coincide with the sections the list was assembled from", floor=15)
     rule_e(res, idx)
     res.rule("R-C03a", "value names are fresh / existing / derived / interface; a literal name must be single-shot per scope", floor=1500)
@@ -480,3 +481,54 @@ def run(res: Results, idx: Index, tier: str) -> None:
         res.ok("R-C03d", f"{tf.module.rel}:{tf.node.lineno}", key, "the function body's graph imports its own domain and the default opset", tf.qualname)
     else:
         res.violation("R-C03d", f"{tf.module.rel}:{tf.node.lineno}", key, "to_ir_function no longer sets opset imports on the function body", tf.qualname)
+
+
+# ---------------------------------------------------------------------------------------------- R-C03f
+def rule_f(res: Results, idx: Index) -> None:
+    """Per-scope tables that map something to an ir.Value of the scope (symbolic-dim origins) are written on every
+    binding.  A nested Loop / If body context that *shares* such a table with its parent (alias instead of copy) leaks
+    body-local values into the enclosing scope: a later outer node then reads a value that only exists inside the body."""
+    res.rule("R-C03f", "nested contexts receive copies, never aliases, of the parent's value-bearing scope tables", floor=2)
+    CTX = "jax2onnx/converter/ir_context.py"
+    m = idx.module(CTX)
+    cls = m.classes.get("IRContext")
+    if cls is None:
+        raise AnalysisError("IRContext not found")
+    tables: Set[str] = set()
+    for fi in cls.methods.values():
+        du = defuse(fi.node)
+        for st in walk_no_nested(fi.node):
+            if isinstance(st, ast.Assign):
+                for t in st.targets:
+                    if isinstance(t, ast.Subscript) and isinstance(t.value, ast.Attribute) and isinstance(t.value.value, ast.Name) and t.value.value.id == "self":
+                        vals = [st.value] + [v for nm in du.closure(names_in(st.value)) for v in du.values(nm)]
+                        if any(isinstance(x, ast.Call) and (call_name(x) or "").split(".")[-1] == "SymbolicDimOrigin" for v in vals for x in ast.walk(v)):
+                            tables.add(t.value.attr)
+    if not tables:
+        raise AnalysisError("no value-bearing scope table (self.<table>[k] = SymbolicDimOrigin(...)) found in IRContext")
+    res.analysed["value_bearing_scope_tables"] = sorted(tables)
+    n = 0
+    for mod in idx.product_modules():
+        for fi in mod.funcs.values():
+            if fi.cls is cls:
+                continue
+            for st in walk_no_nested(fi.node):
+                if not isinstance(st, ast.Assign):
+                    continue
+                for t in st.targets:
+                    if not (isinstance(t, ast.Attribute) and t.attr in tables):
+                        continue
+                    v = st.value
+                    from_other = any((isinstance(x, ast.Attribute) and x.attr == t.attr) or (isinstance(x, ast.Constant) and x.value == t.attr) for x in ast.walk(v))
+                    if not from_other:
+                        continue
+                    n += 1
+                    key = f"{mod.rel}::{fi.qualname}::{t.attr}"
+                    site = f"{mod.rel}:{st.lineno}"
+                    copied = (isinstance(v, ast.Call) and ((call_name(v) or "") in ("dict", "copy.copy", "copy.deepcopy") or (isinstance(v.func, ast.Attribute) and v.func.attr == "copy"))) \
+                        or isinstance(v, ast.DictComp) or (isinstance(v, ast.Dict) and any(k is None for k in v.keys))
+                    if copied:
+                        res.ok("R-C03f", site, key, f"`{src(v, 50)}` copies the parent's table", fi.qualname)
+                    else:
+                        res.violation("R-C03f", site, key, f"`{src(st, 80)}` makes the nested context share the parent's `{t.attr}` table: every binding inside the body overwrites the enclosing scope's entries with body-local values, which outer nodes then reference", fi.qualname)
+    res.analysed["scope_table_handovers"] = n
